@@ -2,6 +2,8 @@
 From BT Require Import Base.Util Base.Float.
 From BT Require Model.EntryBedSweep Proofs.BedFile Model.RTree Model.BBIFile Model.BigWigWrite Model.BedSweep Spec.Depth Proofs.DepthStats Proofs.SweepRLE
   Proofs.BedSummary Proofs.BedIeee Proofs.BwSummary Proofs.BwCollect Properties.C06.
+From BT Require Model.BBIRead Model.BigBedWrite Model.BBIReadBed Proofs.RTreeCodec Proofs.BigWigFileRoundTrip
+  Proofs.BedEndToEnd Proofs.BedZoomFit Proofs.C06FileFloat Proofs.C06FileRead Proofs.C06FileBed Proofs.C06FileIeee.
 
 Module PinC06.
 Import Model.EntryBedSweep Proofs.BedFile Model.RTree Model.BBIFile Model.BigWigWrite Model.BedSweep Spec.Depth Proofs.DepthStats Proofs.SweepRLE
@@ -51,4 +53,81 @@ Check (eq_refl : sform = fun s items b su q mn mx =>
   su_min s = optf mn /\ su_max s = optf mx).
 Check (eq_refl : valid_chrom = fun U es => U <= U32_MAX /\ Forall (entry_ok U) es /\ starts_sorted es).
 Check (eq_refl : depth = fun es x => Nlen (filter (fun e => covers e x) es)).
+(* ---- the reader on the bytes of the written file ---- *)
+Check (C06_f64_roundtrip : forall x, C06FileFloat.rep64 x ->
+  C06FileFloat.same_num (C06FileFloat.f64_rt x) x /\
+  match x with FFin _ _ => fin_ge (-1074) (C06FileFloat.f64_rt x) | _ => C06FileFloat.f64_rt x = x end /\
+  bits_of_f64 x < 18446744073709551616).
+Check (C06_bw_file_stored : forall fp o sizes inp bs,
+  BigWigFileRoundTrip.opts_ok o -> BigWigFileRoundTrip.input_ok sizes inp -> Nlen bs < RTreeCodec.U64 ->
+  bw_write fp o sizes inp = Ok bs \/ bw_write_multipass fp o sizes inp = Ok bs ->
+  exists ids outs sum data i,
+    bw_collect fp o sizes inp = Ok (ids, outs, sum, data) /\ BBIRead.read_info bs = Ok i /\
+    BBIRead.read_summary bs i = Ok (C06FileRead.stored (C06FileRead.bw_section_count o inp) sum)).
+Check (C06_bw_file_summary : forall E o sizes inp bs,
+  (E <= -1074)%Z -> Forall (fun it => vfin E (snd it)) inp ->
+  BigWigFileRoundTrip.opts_ok o -> BigWigFileRoundTrip.input_ok sizes inp -> Nlen bs < RTreeCodec.U64 ->
+  bw_write exact o sizes inp = Ok bs \/ bw_write_multipass exact o sizes inp = Ok bs ->
+  let all := map snd inp in
+  C06FileRead.is_f64 E (w_sum E all) -> C06FileRead.is_f64 (E + E) (w_sumsq E all) ->
+  exists i s, BBIRead.read_info bs = Ok i /\ BBIRead.read_summary bs i = Ok s /\
+    wform E s (C06FileRead.bw_section_count o inp) (w_bases all) (w_sum E all) (w_sumsq E all)
+          (w_min E all (fval E f64_max)) (w_max E all (fval E f64_min))).
+Check (C06_bw_file_summary_ieee : forall o sizes inp bs,
+  BigWigFileRoundTrip.opts_ok o -> BigWigFileRoundTrip.input_ok sizes inp -> Nlen bs < RTreeCodec.U64 ->
+  bw_write ieee o sizes inp = Ok bs \/ bw_write_multipass ieee o sizes inp = Ok bs ->
+  exists ids outs sum data i s,
+    bw_collect ieee o sizes inp = Ok (ids, outs, sum, data) /\ BBIRead.read_info bs = Ok i /\
+    BBIRead.read_summary bs i = Ok s /\ C06FileIeee.same_summary s sum (C06FileRead.bw_section_count o inp)).
+Check (eq_refl : C06FileIeee.same_summary = fun s w items =>
+  su_items s = items /\ su_bases s = su_bases w /\ C06FileFloat.same_num (su_min s) (su_min w) /\ C06FileFloat.same_num (su_max s) (su_max w)
+  /\ C06FileFloat.same_num (su_sum s) (su_sum w) /\ C06FileFloat.same_num (su_sumsq s) (su_sumsq w)).
+Check (C06_bb_file_summary_read : forall U two_pass fp o sizes autosql input f,
+  fp = exact \/ fp = ieee ->
+  U <= U32_MAX -> Forall (fun it : BigBedWrite.bitem => BigBedWrite.e_end (snd it) <= U) input ->
+  BedZoomFit.bb_write_either two_pass fp o sizes autosql input = Ok f ->
+  BedEndToEnd.file_hyps o sizes input f ->
+  let chroms := C06FileBed.chroms_of input in
+  sumN (map (c_sumsq U) chroms) < P53 ->
+  exists i s, BBIRead.read_info f = Ok i /\ BBIRead.read_summary f i = Ok s /\
+    BBIReadBed.bb_item_count f i = Ok (Nlen input) /\
+    concat chroms = map (fun it => BigBedWrite.to_sw (snd it)) input /\ Forall (valid_chrom U) chroms /\
+    C06FileBed.sform_num s (Nlen input) (sumN (map (c_cov U) chroms)) (sumN (map (c_sum U) chroms))
+      (sumN (map (c_sumsq U) chroms))
+      (fold_left (fun a es => opt_meet N.min a (c_min U es)) chroms None)
+      (fold_left (fun a es => opt_meet N.max a (c_max U es)) chroms None)).
+Check (C06_bb_file_item_count : forall two_pass fp o sizes autosql input f,
+  BedZoomFit.bb_write_either two_pass fp o sizes autosql input = Ok f ->
+  BedEndToEnd.file_hyps o sizes input f ->
+  exists i, BBIRead.read_info f = Ok i /\ BBIReadBed.bb_item_count f i = Ok (Nlen input)).
+(* the definitions the new statements rest on *)
+Check (eq_refl : C06FileFloat.f64_rt = fun x => f64_of_bits (bits_of_f64 x)).
+Check (eq_refl : C06FileFloat.same_num = fun a b =>
+  match a, b with
+  | FFin m1 e1, FFin m2 e2 => (m1 * 2 ^ (e1 - Z.min e1 e2) = m2 * 2 ^ (e2 - Z.min e1 e2))%Z
+  | FNaN, FNaN => True
+  | FInf s, FInf t => s = t
+  | _, _ => False
+  end).
+Check (eq_refl : C06FileFloat.canon64 = fun m e => (Z.abs m < 2 ^ 53 /\ -1074 <= e /\ e + bitlen m <= 1024)%Z).
+Check (eq_refl : C06FileFloat.rep64 = fun x =>
+  match x with
+  | FFin m e => exists m' e', C06FileFloat.canon64 m' e' /\ C06FileFloat.same_num (FFin m e) (FFin m' e')
+  | _ => True
+  end).
+Check (eq_refl : C06FileRead.is_f64 = fun E z => C06FileFloat.rep64 (FFin z E)).
+Check (eq_refl : C06FileRead.stored = fun cnt s =>
+  {| su_items := cnt; su_bases := su_bases s; su_min := C06FileFloat.f64_rt (su_min s); su_max := C06FileFloat.f64_rt (su_max s);
+     su_sum := C06FileFloat.f64_rt (su_sum s); su_sumsq := C06FileFloat.f64_rt (su_sumsq s) |}).
+Check (eq_refl : C06FileRead.bw_section_count = fun o inp =>
+  sumN (map (fun r => Nlen (chunks (N.to_nat (o_ips o)) (snd r))) (runs inp))).
+Check (eq_refl : C06FileBed.chroms_of = fun input => map (fun r => map BigBedWrite.to_sw (snd r)) (BigBedWrite.bruns input)).
+Check (eq_refl : C06FileBed.sform_num = fun s items b su q mn mx =>
+  su_items s = items /\ su_bases s = b /\ C06FileFloat.same_num (su_sum s) (f_of_N su) /\ C06FileFloat.same_num (su_sumsq s) (f_of_N q) /\
+  C06FileFloat.same_num (su_min s) (optf mn) /\ C06FileFloat.same_num (su_max s) (optf mx)).
+Check (eq_refl : wform = fun E s items bases su sq mn mx =>
+  su_items s = items /\ su_bases s = bases /\
+  fin_ge E (su_sum s) /\ fval E (su_sum s) = su /\
+  fin_ge (E + E) (su_sumsq s) /\ fval (E + E) (su_sumsq s) = sq /\
+  fin_ge E (su_min s) /\ fval E (su_min s) = mn /\ fin_ge E (su_max s) /\ fval E (su_max s) = mx)%Z.
 End PinC06.
